@@ -93,3 +93,87 @@ def run_cond(case):
         again = _exc(e)
     out["stable"] = again == out["post"]
     return out
+
+
+# ---------------------------------------------------------------------------------------------
+# histories: rule objects are parsed, changed, and parsed again
+def _ev_atoms(t, on):
+    """truth value of a postprocessed tree; `on` = set of atom ids that are true"""
+    if t is None:
+        raise _Undefined()
+    if isinstance(t, C.ConditionFieldEqualsValueExpression):
+        return int(t.value.number) in on
+    if isinstance(t, C.ConditionNOT):
+        (a,) = t.args
+        return not _ev_atoms(a, on)
+    if isinstance(t, C.ConditionAND):
+        return all([_ev_atoms(a, on) for a in t.args])
+    if isinstance(t, C.ConditionOR):
+        return any([_ev_atoms(a, on) for a in t.args])
+    raise _Undefined()
+
+
+def run_history(case):
+    """case: {"dict": [[name, atom], ...], "conds": [text, ...], "steps": [...]}.
+    Every detection is the atom fld = <atom id>.  Steps act on numbered rule objects:
+      ["new", k]  ["copy", src, dst]  ["add", k, name, atom]  ["remove", k, name]  ["rename", k, old, new]
+      ["dadd", name, atom]  ["dremove", name]                       (the source dict of later "new" steps)
+      ["parse", k, ci, mode, names]   mode "existing" (rule.detection.parsed_condition[ci]) or "fresh"
+                                      (a new SigmaCondition on the same detections); names = the (name, atom) pairs
+                                      the harness expects rule k to have now (mask bit i = i-th pair).
+    Returns one result per parse step."""
+    import copy
+    from sigma.rule import SigmaRule, SigmaDetection
+    from sigma.conditions import SigmaCondition
+    src = {n: {"fld": a} for n, a in case["dict"]}
+    conds = case["conds"]
+    rules = {}
+    out = []
+    for st in case["steps"]:
+        op = st[0]
+        if op == "new":
+            d = dict(src)
+            d["condition"] = list(conds)
+            rules[st[1]] = SigmaRule.from_dict({"title": "t", "logsource": {"category": "c"}, "detection": d})
+        elif op == "copy":
+            rules[st[2]] = copy.deepcopy(rules[st[1]])
+        elif op == "add":
+            rules[st[1]].detection.detections[st[2]] = SigmaDetection.from_definition({"fld": st[3]})
+        elif op == "remove":
+            del rules[st[1]].detection.detections[st[2]]
+        elif op == "rename":
+            dets = rules[st[1]].detection.detections
+            dets[st[3]] = dets.pop(st[2])
+        elif op == "dadd":
+            src[st[1]] = {"fld": st[2]}
+        elif op == "dremove":
+            del src[st[1]]
+        elif op == "parse":
+            _, k, ci, mode, names = st
+            rule = rules[k]
+            if mode == "existing":
+                cond = rule.detection.parsed_condition[ci]
+            else:
+                cond = SigmaCondition(conds[ci], rule.detection)
+            r = {"keys": list(rule.detection.detections.keys())}
+            try:
+                r["parse"] = enc_parse(cond.parse(False))
+            except Exception as e:
+                r["parse"] = _exc(e)
+            table = None
+            try:
+                post = cond.parsed
+                r["post"] = {"t": enc_post(post)}
+                try:
+                    atoms = [a for _, a in names]
+                    table = [_ev_atoms(post, {a for i, a in enumerate(atoms) if (m >> i) & 1})
+                             for m in range(2 ** len(atoms))]
+                except _Undefined:
+                    table = None
+            except Exception as e:
+                r["post"] = _exc(e)
+            r["table"] = table
+            out.append(r)
+        else:
+            raise ValueError(op)
+    return {"parses": out}
